@@ -63,8 +63,11 @@ def custom_mods(name, fmt, obj, pth, part, snap, rng):
         imgs = part.images
         if not imgs:
             return []
-        p = rng.choice(sorted(imgs)); k = rng.choice(sorted(imgs[p]))
-        return [{"path": pth, "setitem": "images", "keys": [p, k], "value": v} for v in ["/abs/x", "/", 5, None, ["x"], 0, False, [], {"$float": "0.0"}]]
+        nonempty = [q for q in sorted(imgs) if imgs[q]]
+        if not nonempty:
+            return [{"path": pth, "setitem": "images", "keys": [sorted(imgs)[0], "kernel"], "value": v} for v in ["/abs/x", 5]]
+        p = rng.choice(nonempty); k = rng.choice(sorted(imgs[p]))
+        return [{"path": pth, "setitem": "images", "keys": [p, k], "value": v} for v in ["/abs/x", "/", "//x", 5, None, ["x"], 0, False, [], {"$float": "0.0"}]]
     if name == "ti_platforms":
         if not part.images:
             return []
@@ -118,7 +121,7 @@ def propose(fmt, spec, rng, T, target=None):
 class C06(Prop):
     id = "C06"
     lean_module = "ProductMD.Properties.C06"
-    quick_budget = 2800
+    quick_budget = 2450
     thorough_budget = 42000
     rule = ("valid objects of the seven formats built through the public API from the library's own tables (every enumeration value round-robin) "
             "and one-field corruptions at a uniformly chosen written part with a value from the complement of a uniformly chosen catalogue rule; "
@@ -130,7 +133,8 @@ class C06(Prop):
                    "C06_errclass_composeinfo/_treeinfo carry the decidable hypothesis StepsInDomain: no variant's parent uid is a list/dict/foreign object "
                    "(the model cannot compute '%s' of it), no parent arch container is a foreign object, treeinfo checksum/platform tables are dicts "
                    "(wrong-shape skeletons raise AttributeError in the real code; container shape is not a catalogue rule); F12 IndexError for a tree "
-                   "with no variants is a disjunct of C06_errclass_treeinfo"]
+                   "with no variants and the non-finite build timestamp (F35: int(inf)/int(nan) in General.serialize) are the failures of `generalOk`, "
+                   "a disjunct of C06_errclass_treeinfo and a hypothesis of C06_converse_treeinfo (C06_general_failures names them exactly)"]
     partial = {}
 
     def __init__(self):
@@ -143,7 +147,8 @@ class C06(Prop):
         return self._T
 
     # ------------------------------------------------------------------ generation
-    HISTORIES = [("fresh", 35), ("dump-first", 20), ("load-first", 15), ("fail-repair", 10), ("dump-fail-repair", 10), ("two-corruptions", 10)]
+    HISTORIES = [("fresh", 25), ("dump-first", 15), ("load-first", 12), ("fail-repair", 10), ("dump-fail-repair", 8), ("two-corruptions", 10),
+                 ("interleaved-twin", 10), ("reads-between", 10)]
 
     def history(self, rng, fmt, spec, mod, T):
         """the SEQUENCE of calls on ONE object: validation state hidden in the objects (memoised validate(), flags set by an earlier
@@ -167,14 +172,22 @@ class C06(Prop):
             return name, [M, D, U, D]
         if name == "dump-fail-repair":
             return name, [D, M, D, U, D]
+        if name == "interleaved-twin":
+            # a second object built from the same spec in the same process, never modified: it must stay writable while its twin is corrupted
+            return name, [{"do": "twin-dumps"}, M, {"do": "twin-dumps"}, D, {"do": "twin-dumps"}]
+        if name == "reads-between":
+            # every public read-only call between the mutation and the dump: the state must be unchanged by them
+            return name, [{"do": "reads"}, D, M, {"do": "reads"}, D, U, {"do": "reads"}, D]
         mod2, _ = propose(fmt, spec, rng, T)
         if mod2 is None or (mod2.get("path"), mod2.get("set")) == (mod.get("path"), mod.get("set")):
             return "fail-repair", [M, D, U, D]
         return name, [M, D, U, {"do": "mod", "mod": mod2}, D]
 
     def mk(self, fmt, spec, steps, tag, hist):
+        self._nvia = getattr(self, "_nvia", 0) + 1
+        via = ["dumps", "dumps", "dump-new-path", "dumps", "dump-existing-path", "dumps", "dump-fileobj"][self._nvia % 7]
         return {"op": "c06", "args": {"fmt": fmt, "spec": spec, "steps": steps, "mods": [s["mod"] for s in steps if s["do"] == "mod"],
-                                      "tag": tag, "history": hist}}
+                                      "tag": tag, "history": hist, "via": via}}
 
     def cases(self, rng, tier, budget):
         T = self.T()
@@ -194,7 +207,12 @@ class C06(Prop):
                 cls_rule = sus[tries % len(sus)]
                 fmt = V.FORMATS[(tries // len(sus)) % len(V.FORMATS)]
                 spec = V.gen(rng, fmt, tries)
-                mod, tag = propose(fmt, spec, rng, T, target=cls_rule)
+                try:
+                    mod, tag = propose(fmt, spec, rng, T, target=cls_rule)
+                except Exception:   # noqa
+                    n += 1
+                    yield self.mk(fmt, spec, [{"do": "dumps"}], "valid", "once")
+                    continue
                 if mod is None:
                     continue
                 n += 1
@@ -212,7 +230,12 @@ class C06(Prop):
                 yield self.mk(fmt, spec, steps, "valid", hist)
                 continue
             spec = V.gen(rng, fmt, k)
-            mod, tag = propose(fmt, spec, rng, T)
+            try:
+                mod, tag = propose(fmt, spec, rng, T)
+            except Exception:   # noqa: the VALID object cannot even be built through the public API (add() validates): shown by the valid case
+                n += 1
+                yield self.mk(fmt, spec, [D], "valid", "once")
+                continue
             if mod is None:
                 continue
             # the known finding F15 is met a bounded number of times per run
@@ -226,7 +249,64 @@ class C06(Prop):
             yield self.mk(fmt, spec, steps, tag, hist)
 
     # ------------------------------------------------------------------ real side
-    def observe(self, fmt, obj, T):
+    def read_only_calls(self, fmt, obj):
+        """the public read-only API of the object (exceptions are irrelevant here: only a state change would be)"""
+        def t(f):
+            try:
+                f()
+            except Exception:   # noqa
+                pass
+        if fmt == "composeinfo":
+            t(lambda: str(obj)); t(lambda: obj.release_id); t(lambda: obj.get_variants()); t(lambda: obj.get_variants(arch="x86_64", recursive=True))
+            t(lambda: obj.create_compose_id()); t(lambda: obj.compose.is_ga); t(lambda: obj.compose.full_label); t(lambda: obj.compose.label_major_version)
+            for k in list(obj.variants.variants):
+                t(lambda k=k: obj[k]); t(lambda k=k: obj[k].compose_id); t(lambda k=k: len(obj[k])); t(lambda k=k: list(obj[k]))
+            t(lambda: obj.release.major_version); t(lambda: obj.release.minor_version); t(lambda: obj.release.type_suffix)
+        elif fmt == "images":
+            L_ = V.L()
+            for v in list(obj.images):
+                t(lambda v=v: obj[v])
+                for a in list(obj.images[v]):
+                    for i in list(obj.images[v][a]):
+                        t(lambda i=i: L_.images.identify_image(i)); t(lambda i=i: repr(i))
+        elif fmt in ("rpms", "modules", "extra_files"):
+            t(lambda: obj["Server"]); t(lambda: obj.compose.type_suffix)
+        elif fmt == "treeinfo":
+            t(lambda: str(obj)); t(lambda: obj.images.platforms); t(lambda: obj.release.major_version)
+            for k in list(obj.variants.variants):
+                t(lambda k=k: obj[k]); t(lambda k=k: obj[k].arch); t(lambda k=k: obj[k]._section); t(lambda k=k: obj.variants.get_variants(recursive=True))
+            for p_ in list(obj.images.images) if isinstance(obj.images.images, dict) else []:
+                t(lambda p_=p_: obj.images[p_])
+        for pth, part in V.all_parts(fmt, obj):
+            t(part.validate)
+
+    def write(self, fmt, obj, via):
+        """dump()/dumps() through one of the documented entry points; the outcome is the same object either way"""
+        if via in (None, "dumps"):
+            return V.outcome(V.dumps, fmt, obj)
+        import io, os, tempfile
+        if via == "dump-fileobj":
+            f = io.StringIO()
+            r = V.outcome(obj.dump, f)
+            return {"ok": f.getvalue()} if "ok" in r else r
+        d = tempfile.mkdtemp(prefix="c06-")
+        path = os.path.join(d, "out")
+        try:
+            if via == "dump-existing-path":
+                open(path, "w").write("previous content\n")
+            r = V.outcome(obj.dump, path)
+            if "ok" in r:
+                return {"ok": open(path).read()}
+            return r
+        finally:
+            try:
+                if os.path.exists(path):
+                    os.unlink(path)
+                os.rmdir(d)
+            except OSError:
+                pass
+
+    def observe(self, fmt, obj, T, via=None):
         """everything C06 looks at, at one `dumps()` call: the written parts as the spec sees them (before the call), what each
         part's own validate() says, the outcome of the call"""
         model_obj = V.snap_obj(fmt, obj)
@@ -252,7 +332,7 @@ class C06(Prop):
             lenient_any = lenient_any or bool(lviol)
             parts.append([pth, cls, "ok" if "ok" in vr else vr["err"], viol, lviol])
             snaps.append(snap)
-        r = V.outcome(V.dumps, fmt, obj)
+        r = self.write(fmt, obj, via)
         return {"dumps": "ok" if "ok" in r else r["err"], "text": r.get("ok"), "parts": parts, "expect_reject": strict_any,
                 "only_nl": strict_any and not lenient_any, "snaps": snaps, "obj": model_obj}
 
@@ -264,10 +344,25 @@ class C06(Prop):
         try:
             obj = V.build(fmt, a["spec"])
         except Exception as e:   # noqa
-            return {"obs": [], "build": "BUILD:" + type(e).__name__}
+            return {"obs": [], "build": type(e).__name__, "msg": str(e)[:120]}
+        twin = None
+        via = a.get("via")
         for idx, st in enumerate(steps):
             try:
-                if st["do"] == "mod":
+                if st["do"] == "twin-dumps":
+                    if twin is None:
+                        twin = V.build(fmt, a["spec"])
+                    o = self.observe(fmt, twin, T, via)
+                    o["step"] = idx; o["twin"] = True
+                    obs.append(o)
+                elif st["do"] == "reads":
+                    before = json.dumps(V.snap_obj(fmt, obj), sort_keys=True, default=str)
+                    self.read_only_calls(fmt, obj)
+                    after = json.dumps(V.snap_obj(fmt, obj), sort_keys=True, default=str)
+                    if before != after:
+                        obs.append({"step": idx, "dumps": "READS-CHANGED-STATE", "parts": [], "expect_reject": False, "only_nl": False, "snaps": [], "obj": None})
+                        break
+                elif st["do"] == "mod":
                     undo.append(V.apply_mod(fmt, obj, st["mod"]))
                 elif st["do"] == "undo":
                     undo.pop()()
@@ -276,7 +371,7 @@ class C06(Prop):
                         break
                     obj = V.new(fmt); obj.loads(text); undo = []
                 elif st["do"] == "dumps":
-                    o = self.observe(fmt, obj, T)
+                    o = self.observe(fmt, obj, T, via)
                     o["step"] = idx
                     if o["text"] is not None:
                         text = o["text"]
@@ -290,7 +385,7 @@ class C06(Prop):
         full = self.run_real(case)
         self._cache[checklib.key_of(case)] = full
         return {"obs": [{"step": o["step"], "dumps": o["dumps"], "parts": [[p[1], p[2], p[4]] for p in o["parts"]],
-                         "expect_reject": o["expect_reject"], "only_nl": o["only_nl"]} for o in full["obs"]]}
+                         "expect_reject": o["expect_reject"], "only_nl": o["only_nl"]} for o in full["obs"]], "build": full.get("build"), "msg": full.get("msg")}
 
     # ------------------------------------------------------------------ model side (stateless: one walk per dumps() call of the sequence)
     def model_requests(self, case):
@@ -342,7 +437,7 @@ class C06(Prop):
         return diffs or None
 
     def compare(self, case, real_out, model_out):
-        robs = [o for o in real_out["obs"] if not o["dumps"].startswith("STEP:")]
+        robs = [o for o in real_out["obs"] if not o["dumps"].startswith("STEP:") and o["dumps"] != "READS-CHANGED-STATE"]
         if len(robs) != len(model_out):
             return {"real": {"n_dumps": len(robs)}, "model": {"n_dumps": len(model_out)}}
         for o, m in zip(robs, model_out):
@@ -356,11 +451,23 @@ class C06(Prop):
     def oracle(self, case, real_out):
         a = case["args"]
         steps = a.get("steps")
+        if real_out.get("build"):
+            # the spec is valid by construction: the public API (add() validates its argument) refused to build the object at all
+            return {"observed": {"build": real_out["build"], "message": real_out.get("msg"), "spec": a["spec"]},
+                    "required": "an object all of whose fields satisfy the documented rules can be assembled through the public API and written", "kind": "refused-valid"}
         for o in real_out["obs"]:
             d = o["dumps"]
             if d.startswith("STEP:"):
                 return None
-            seq = {"history": a.get("history"), "failing_step": o["step"], "steps": steps}
+            seq = {"history": a.get("history"), "failing_step": o["step"], "steps": steps, "via": a.get("via")}
+            if d == "READS-CHANGED-STATE":
+                return {"observed": dict(seq, dumps=d), "required": "read-only calls between a mutation and a dump leave the object unchanged", "kind": "reads-changed-state"}
+            spec = a["spec"]
+            if a["fmt"] == "treeinfo" and isinstance(spec, dict):
+                # the two places where a tree whose every FIELD satisfies its rule still cannot be written (known findings, by predicate on the input)
+                ts = spec.get("tree", {}).get("build_timestamp")
+                seq["nonfinite_build_timestamp"] = isinstance(ts, dict) and ts.get("$float") in ("inf", "-inf", "nan")
+                seq["no_variants"] = spec.get("variants") == []
             if o["expect_reject"]:
                 if d == "ok":
                     return {"observed": dict(seq, dumps="ok", only_trailing_newline=bool(o["only_nl"])),
@@ -399,7 +506,7 @@ class C06(Prop):
             if isinstance(s.get("release"), dict):
                 note("release_type", s["release"].get("type"))
             for e in s.get("images", []) if isinstance(s.get("images"), list) else []:
-                note("image_type", e["fields"]["type"]); note("image_format", e["fields"]["format"])
+                note("image_type", e["fields"]["type"]); note("image_format", e["fields"]["format"]); note("image_cell_arch", e["arch"])
 
             def walk(vs):
                 for v in vs:
